@@ -1,4 +1,5 @@
 import MosnVerif.Model.FrameH2
+import MosnVerif.Model.FrameH2Err
 import MosnVerif.Lemmas.FramingS
 import MosnVerif.Lemmas.FrameSteps
 /-! prefix-stability of the HTTP/2 frame extraction -/
@@ -280,5 +281,27 @@ theorem h2Step_empty (G : Bytes → Bool) (s : Bool) : h2Step M P G s [] = .need
   cases s
   · rw [h2Step_pre]; frame_consts_defs; simp
   · rw [h2Step_post]; unfold h2Hdr one; frame_len_defs; simp
+
+/-- a failing ReadFrame consumes nothing or a complete frame / header-block group: never more than was received -/
+theorem errDrains_le (b : Bytes) (n : Nat) (h : n ∈ errDrains M P b) : n ≤ b.length := by
+  unfold errDrains at h
+  rcases List.mem_cons.1 h with rfl | h
+  · omega
+  · split at h
+    · rcases List.mem_append.1 h with h | h
+      · split at h
+        · rename_i hh ho
+          simp only [List.mem_singleton] at h
+          subst h
+          have := (one_ok_bound M (fun _ => true) b 0 hh ho).2.1
+          omega
+        · cases h
+      · split at h
+        · rename_i k hk
+          simp only [List.mem_singleton] at h
+          subst h
+          exact ((h2Hdr_stable M P).pos b _ hk).2
+        · cases h
+    · cases h
 
 end MosnVerif.Model.FrameH2
